@@ -499,9 +499,12 @@ func eval(n *Node, v *Val) res {
 		}
 		return rUnk
 
-	case "regexp": // "checks if a string input matches": a non-string is left open
+	case "regexp":
+		// "checks if a string input matches": an input that is not a string is
+		// not a string input that matches -- in particular not a symbol, keyword
+		// or tagged value whose NAME happens to match.
 		if v.K != kStr {
-			return rUnk
+			return rNoFC
 		}
 		return fromBool(reCache[n.S].MatchString(v.S), cFC)
 
